@@ -16,6 +16,8 @@ pub const NAMES_ADV: &[&str] = &[
     // invisible, private-use, non-BMP and line-separator characters (none is escaped in a Normalized Path)
     "\u{F0000}", "\u{F000}0", "\u{E0041}", "\u{200B}", "a\u{301}", "\u{FEFF}", "\u{10FFFF}", "\u{1D173}", "\u{E000}", "\u{2028}", "\u{85}", "\u{FFFD}",
     "A", "a ", "Ab",
+    // the controls that have a short escape (\b \t \n \f \r), alone and inside a name
+    "\r", "\u{c}", "\u{8}", "a\r\nb", "x\u{c}y", "\u{b}\u{c}",
 ];
 
 /// Names for C15: plain ones plus names that carry quote characters (never both kinds, no backslash),
@@ -962,7 +964,7 @@ pub fn content_value(text: &str) -> Value {
         root.insert("c".to_string(), Value::from(-1));
         return Value::Object(root);
     }
-    serde_json::from_str(text).expect("content json")
+    crate::report::from_json(text).expect("content json")
 }
 
 /// The text a content is compared with at the end of a run (its own serialisation).
